@@ -157,6 +157,16 @@ def solve_obligation(ob, budget_s, tmpdir, tag):
         sx.add(*ob.pc)
         sx.add(z3.Not(ob.goal))
         r = hard_check(sx, seconds)
+        if r == z3.sat:
+            # z3's string solver has returned bogus models under time pressure: a model must satisfy
+            # every (evaluable) assertion, otherwise the answer is discarded as 'unknown'
+            try:
+                m = sx.model()
+                for a in sx.assertions():
+                    if z3.is_false(m.eval(a, model_completion=True)):
+                        return z3.unknown, sx
+            except z3.Z3Exception:
+                return z3.unknown, sx
         return r, sx
 
     # attempt 0: fewer assumptions (quantified ones dropped) - sound for 'unsat', and often much easier
@@ -220,7 +230,7 @@ def worker(task):
            "digest": None, "seconds": 0.0, "mutation": mutation}
     try:
         db = build_db()
-        c = db.get(key)
+        c = db.contracts[key]
         _prefer_cvc5[0] = False
         if mutation is not None:
             _apply_mutation(mutation)
@@ -548,7 +558,7 @@ def main(argv=None):
     violations = []
     reported = set()
     for key, o in refuted:
-        path, has_input = write_replay(prop, key, db.get(key), o)
+        path, has_input = write_replay(prop, key, db.contracts[key], o)
         reproduced = False
         if has_input:
             rc, outp = run_replay(path)
